@@ -58,6 +58,37 @@ fn gen(args: &Args, emit: &mut dyn FnMut(Value)) {
             emit(json!({"body": hex(body.as_bytes()), "filters": f.iter().map(|x| x.to_json()).collect::<Vec<_>>(), "headers": [], "scheds": scheds_json(&scheds), "shape": "exh", "exh": true}));
         }
     }
+    // Fixed multi-byte bodies, present in EVERY run (both tiers): 2-, 3- and 4-byte characters in ordinary text, in
+    // attribute values (quoted and unquoted), in tag-like positions, directly before / after tags, in comments and raw
+    // text, with every single cut enumerated — so each intra-character cut (after byte 1 of 2, 1-2 of 3, 1-3 of 4) is hit
+    // while the filter is acting, holding a partial tag, or buffering an element.
+    let mb_bodies: &[&str] = &[
+        "<html><body class=\"\u{1f600}\u{e9}\u{20ac}\" data-\u{20ac}='\u{1d11e}'>\u{e9}<p>\u{20ac}\u{1f600}</p>\u{1f600}<div title=\u{e9}\u{1f600}>x\u{1d11e}</div>\u{1d11e}</body></html>",
+        "\u{1f600}<p>\u{1f600}</p>\u{1f600}<div>\u{20ac}</div>\u{20ac}<p>\u{e9}</p>\u{e9}",
+        "<div><p>a\u{1f600}<b>\u{1d11e}</b>\u{4e2d}\u{6587}<</p>\u{1f600}<\u{1f600}</div>\u{e9}<",
+        "<html><head><title>\u{1f600}\u{20ac}</title><meta name=\"\u{1f600}\"></head><body>\u{1f600}<!-- \u{1d11e} --><div>\u{20ac}<p",
+        "<p>\u{e9}\u{e9}\u{e9}</p><p \u{1f600}=\"\u{1f600}\">\u{1f600}\u{1f600}</p\u{20ac}><div/>\u{1d11e}<br>\u{1d11e}",
+        "\u{1d11e}\u{1f600}\u{20ac}\u{e9}a\u{e9}\u{20ac}\u{1f600}\u{1d11e}",
+    ];
+    let h = |a: &str, path: &[&str], sel: Option<&str>, v: &str| FSpec::Html { action: a.to_string(), path: path.iter().map(|x| x.to_string()).collect(), sel: sel.map(|x| x.to_string()), value: v.to_string() };
+    let mb_filters: Vec<Vec<FSpec>> = vec![
+        vec![h("prepend_child", &["p"], None, "\u{a7}\u{1f600}")],
+        vec![h("append_child", &["div"], Some("rio-never"), "<ins>\u{1d11e}</ins>")],
+        vec![h("replace", &["p"], None, "\u{20ac}")],
+        vec![h("append_child", &["html", "body"], None, "\u{1f600}"), h("prepend_child", &["html", "body", "p"], Some("rio-never"), "\u{e9}")],
+        vec![FSpec::Text { action: "prepend_text".to_string(), content: "\u{1f600}".to_string() }, h("replace", &["div"], Some("*"), "\u{1d11e}"), FSpec::Text { action: "append_text".to_string(), content: "\u{20ac}".to_string() }],
+        vec![],
+    ];
+    for (i, b) in mb_bodies.iter().enumerate() {
+        for k in 0..3 {
+            let f = &mb_filters[(i + 2 * k) % mb_filters.len()];
+            let len = b.len();
+            let mut scheds: Vec<Vec<usize>> = (0..=len).map(|p| vec![p]).collect();
+            scheds.push((1..len).collect());
+            scheds.push((1..=(len - 1) / 3).map(|j| j * 3).collect());
+            emit(json!({"body": hex(b.as_bytes()), "filters": f.iter().map(|x| x.to_json()).collect::<Vec<_>>(), "headers": [], "scheds": scheds_json(&scheds), "shape": "multibyte-fixed"}));
+        }
+    }
     for _ in 0..args.n {
         let (body, shape) = gen_body(&mut rng);
         let filters = if rng.chance(1, 12) {
